@@ -376,7 +376,11 @@ func (E *Engine) VerifyFunc(p *packages.Package, pc *PkgContracts, c *FuncContra
 		}
 		for _, x := range fks {
 			k := x.k
-			ok, why, used := E.freshResult(p, decl, k, x.spine)
+			field := ""
+			if !x.spine {
+				field = c.FreshField[k]
+			}
+			ok, why, used := E.freshResult(p, pc, decl, k, x.spine, field)
 			name, text := "fresh", "the result shares no mutable memory with receiver, parameters or package state"
 			if x.spine {
 				name, text = "freshspine", "the returned container (slice/map storage) is newly allocated or one of the arguments, never package state or storage obtained elsewhere; its elements may alias"
